@@ -26,7 +26,45 @@ pub enum Leaf {
     Return,
     Unreachable,
     MemCopy(usize, usize),  // i32.const 0 x3 ; memory.copy from memory #src to memory #dst (two memories)
+    Unop(usize),            // i32.const 1 ; UNOPS[k] ; drop
+    Binop(usize),           // i32.const 1 ; i32.const 2 ; BINOPS[k] ; drop
 }
+
+/// unary operators on an i32 operand, by walrus name and by the name of the wasm operator they stand
+/// for (each is built as `i32.const 1 ; <op> ; drop`)
+const UNOPS: &[(UnaryOp, &str)] = &[
+    (UnaryOp::I32Eqz, "I32Eqz"),
+    (UnaryOp::I32Clz, "I32Clz"),
+    (UnaryOp::I32Ctz, "I32Ctz"),
+    (UnaryOp::I32Popcnt, "I32Popcnt"),
+    (UnaryOp::I64ExtendSI32, "I64ExtendI32S"),
+    (UnaryOp::I64ExtendUI32, "I64ExtendI32U"),
+    (UnaryOp::F32ConvertSI32, "F32ConvertI32S"),
+    (UnaryOp::F32ConvertUI32, "F32ConvertI32U"),
+    (UnaryOp::F64ConvertSI32, "F64ConvertI32S"),
+    (UnaryOp::F64ConvertUI32, "F64ConvertI32U"),
+    (UnaryOp::F32ReinterpretI32, "F32ReinterpretI32"),
+    (UnaryOp::I32Extend8S, "I32Extend8S"),
+    (UnaryOp::I32Extend16S, "I32Extend16S"),
+];
+/// binary operators on two i32 operands
+const BINOPS: &[(BinaryOp, &str)] = &[
+    (BinaryOp::I32Add, "I32Add"),
+    (BinaryOp::I32Sub, "I32Sub"),
+    (BinaryOp::I32Mul, "I32Mul"),
+    (BinaryOp::I32DivS, "I32DivS"),
+    (BinaryOp::I32DivU, "I32DivU"),
+    (BinaryOp::I32RemS, "I32RemS"),
+    (BinaryOp::I32RemU, "I32RemU"),
+    (BinaryOp::I32ShrS, "I32ShrS"),
+    (BinaryOp::I32ShrU, "I32ShrU"),
+    (BinaryOp::I32LtS, "I32LtS"),
+    (BinaryOp::I32LtU, "I32LtU"),
+    (BinaryOp::I32GeS, "I32GeS"),
+    (BinaryOp::I32GeU, "I32GeU"),
+    (BinaryOp::I32Rotl, "I32Rotl"),
+    (BinaryOp::I32Rotr, "I32Rotr"),
+];
 
 #[derive(Clone, Debug)]
 pub enum Node {
@@ -64,7 +102,7 @@ fn gen_nodes(rng: &mut Rng, depth: usize, enclosing: usize, budget: &mut i64, en
         let c = rng.below(100);
         if c < 50 || depth == 0 {
             let i32s: Vec<usize> = env_locals.iter().filter(|l| l.1 == ValType::I32).map(|l| l.0).collect();
-            let leaf = match rng.below(12) {
+            let leaf = match rng.below(14) {
                 0 | 1 => Leaf::ConstDrop(rng.next() as i32),
                 2 if !env_locals.is_empty() => {
                     let a = *rng.pick(env_locals);
@@ -89,6 +127,8 @@ fn gen_nodes(rng: &mut Rng, depth: usize, enclosing: usize, budget: &mut i64, en
                     }
                 }
                 11 if rng.chance(2, 3) => Leaf::MemCopy(rng.below(2) as usize, rng.below(2) as usize),
+                12 => Leaf::Unop(rng.below(UNOPS.len() as u64) as usize),
+                13 => Leaf::Binop(rng.below(BINOPS.len() as u64) as usize),
                 _ => Leaf::ConstDrop(rng.below(10) as i32),
             };
             v.push(Node::Leaf(leaf));
@@ -191,6 +231,17 @@ fn flatten(nodes: &[Node], depth_stack: &mut Vec<usize>, out: &mut Vec<String>, 
                     out.push(format!("GlobalSet/g:{}", g));
                 }
                 Leaf::Call => out.push(format!("Call/f:{}", ctx.helper_index)),
+                Leaf::Unop(k) => {
+                    out.push("I32Const/i:1".into());
+                    out.push(UNOPS[*k].1.into());
+                    out.push("Drop".into());
+                }
+                Leaf::Binop(k) => {
+                    out.push("I32Const/i:1".into());
+                    out.push("I32Const/i:2".into());
+                    out.push(BINOPS[*k].1.into());
+                    out.push("Drop".into());
+                }
                 Leaf::MemCopy(src, dst) => {
                     for _ in 0..3 {
                         out.push("I32Const/i:0".into());
@@ -311,8 +362,8 @@ fn op_token(i: &Instr) -> String {
         Instr::GlobalSet(e) => format!("GlobalSet/g:{}", e.global.index()),
         Instr::Call(e) => format!("Call/f:{}", e.func.index()),
         Instr::MemoryCopy(e) => format!("MemoryCopy/m:{}/m:{}", e.dst.index(), e.src.index()),
-        Instr::Binop(_) => "I32Add".into(),
-        Instr::Unop(_) => "I32Eqz".into(),
+        Instr::Binop(e) => BINOPS.iter().find(|b| std::mem::discriminant(&b.0) == std::mem::discriminant(&e.op)).map(|b| b.1).unwrap_or("?").into(),
+        Instr::Unop(e) => UNOPS.iter().find(|u| std::mem::discriminant(&u.0) == std::mem::discriminant(&e.op)).map(|u| u.1).unwrap_or("?").into(),
         Instr::Return(_) => "Return".into(),
         Instr::Unreachable(_) => "Unreachable".into(),
         Instr::Br(e) => format!("Br/s:{}", e.block.index()),
@@ -358,6 +409,8 @@ fn build_nodes(b: &mut InstrSeqBuilder, nodes: &[Node], enclosing: &mut Vec<Inst
                     Leaf::TeeDrop(a) => vec![Const { value: Value::I32(1) }.into(), LocalTee { local: env.locals[*a].0 }.into(), Drop {}.into()],
                     Leaf::GlobalRW(g) => vec![GlobalGet { global: env.globals[*g] }.into(), GlobalSet { global: env.globals[*g] }.into()],
                     Leaf::Call => vec![Call { func: env.helper }.into()],
+                    Leaf::Unop(k) => vec![Const { value: Value::I32(1) }.into(), Unop { op: UNOPS[*k].0 }.into(), Drop {}.into()],
+                    Leaf::Binop(k) => vec![Const { value: Value::I32(1) }.into(), Const { value: Value::I32(2) }.into(), Binop { op: BINOPS[*k].0 }.into(), Drop {}.into()],
                     Leaf::MemCopy(src, dst) => vec![
                         Const { value: Value::I32(0) }.into(),
                         Const { value: Value::I32(0) }.into(),
